@@ -262,8 +262,71 @@ func errsExec(ctx *Ctx, w []string) {
 	}
 }
 
+// errsBinaryTexts: wrapping texts that are NOT valid UTF-8 (a Latin-1 file name, a raw binary key, a truncated
+// multi-byte sequence).  The Lean model's texts are Unicode strings, so this family is judged by the Go-side
+// monitors alone: class kept and no other class gained through GRPCWrap, GRPCWrap idempotent, the embedded
+// object extractable and unchanged after GRPCWrap, exactly one marker pair in the message.
+func errsBinaryTexts(ctx *Ctx) {
+	ctx.R.Case("binary-texts")
+	texts := []string{"caf\xe9.txt: ", "key \xff\xfe\x00\x01: ", "\xc3", "\xe2\x82 tail", "ok \x80"}
+	jsons := []string{"{\"a\":1}", "\"s:t\"", "[1,2,3]"}
+	n := 0
+	bad := func(name, detail string) { ctx.R.Quiet("mon "+name, detail) }
+	for _, cls := range errClassNames() {
+		want, mapped := gerrors.VerifErrorsToCode()[errClasses[cls]]
+		if !mapped {
+			continue
+		}
+		for depth := 0; depth <= 2; depth++ {
+			for embedAt := 0; embedAt <= depth; embedAt++ {
+				for ti, t := range texts {
+					ej := jsons[(ti+depth+embedAt)%len(jsons)]
+					recipe := "C." + cls
+					for d := 0; d <= depth; d++ {
+						if d == embedAt {
+							recipe += ";E." + hs(ej)
+						}
+						// (at depth 0 the text goes into one wrap around the embedded error)
+						if d < depth || depth == 0 {
+							recipe += ";W." + hs(t) + "." + hs(texts[(ti+1)%len(texts)])
+						}
+					}
+					out := guard(func() string {
+						err, _, _ := buildErr(recipe)
+						wr := gerrors.GRPCWrap(err)
+						if !gerrors.Is(wr, errClasses[cls]) {
+							bad("C19-is-after-wrap", fmt.Sprintf("Is(GRPCWrap(%s), %s) = false (code %v, table code %v; texts not valid UTF-8)", recipe, cls, status.Code(wr), want))
+						}
+						for _, o := range errClassNames() {
+							if o != cls && gerrors.Is(wr, errClasses[o]) {
+								bad("C19-no-other-class", fmt.Sprintf("Is(GRPCWrap(%s), %s) = true although the class is %s", recipe, o, cls))
+							}
+						}
+						w2 := gerrors.GRPCWrap(wr)
+						if !(wr == w2 || (status.Code(wr) == status.Code(w2) && wr.Error() == w2.Error())) {
+							bad("C19-wrap-idempotent", fmt.Sprintf("GRPCWrap(GRPCWrap(e)) != GRPCWrap(e) for %s", recipe))
+						}
+						var o json.RawMessage
+						if ok := gerrors.ExtractObject(wr, &o); !ok || string(o) != ej {
+							bad("C19-extract-after-wrap", fmt.Sprintf("embedded %q, extracted ok=%v %q from GRPCWrap(%s): the wrapping texts are not valid UTF-8 (message %q)", ej, ok, string(o), recipe, wr.Error()))
+						}
+						return "ok"
+					})
+					if out != "ok" {
+						bad("C19-extract-after-wrap", fmt.Sprintf("%s on %s (texts not valid UTF-8)", out, recipe))
+					}
+					n++
+					ctx.R.Nontrivial("binary text")
+				}
+			}
+		}
+	}
+	ctx.R.Comment(fmt.Sprintf("binary-texts: %d chains judged by the Go-side monitors", n))
+}
+
 func runErrs(ctx *Ctx) {
 	ctx.R.PerOp()
+	defer errsBinaryTexts(ctx)
 	r := ctx.Rnd
 	names := errClassNames()
 	// the class list of the harness must be the class list of the package (distinct sentinels)
